@@ -176,6 +176,8 @@ def okRelocate (G : List Char) (w1 : Blk) (s1 : Strand) (tx : Option Location) (
   match composeLevels start cst places with
   | none => ans.isNone          -- a position off its placement / a level without direction
   | some (want, wst) =>
+    -- an undirected child has no 5'→3' reading: there are no letters to answer, refusing is accepted
+    if wst = Strand.unstranded ∧ ans.isNone then true else
     let inside := want.filter (fun p => decide (w2.1 ≤ p) && decide (p < w2.2))
     let expect := inside.map (fun p => if s2 = Strand.minus then w2.2 - 1 - p else p - w2.1)
     match ans with
